@@ -263,4 +263,66 @@ example :
                 .unreg 0 (.named "a"), .regClass 4 (.named "b"), .reg 0 .empty false]
     (rrun C12_demoInfo true RState.init 0 ops).node = [(("", 0), 1)] := by decide
 
+/-! ### reversibility -/
+
+theorem RTable.remove_of_find_none (t : RTable) (ns : String) (cls : Nat) (h : t.find ns cls = Option.none) :
+    t.remove ns cls = t := by
+  unfold RTable.find at h
+  unfold RTable.remove
+  simp only [Option.map_eq_none_iff, List.find?_eq_none] at h
+  apply List.filter_eq_self.mpr
+  intro e he
+  have := h e he
+  simp only [Bool.and_eq_true, beq_iff_eq, not_and] at this
+  simp only [Bool.not_eq_true', Bool.and_eq_false_iff, beq_eq_false_iff_ne, ne_eq]
+  by_cases h0 : e.1.1 = ns
+  · exact Or.inr (this h0)
+  · exact Or.inl h0
+
+theorem RTable.remove_append_self (t : RTable) (ns : String) (cls rid : Nat) (h : t.find ns cls = Option.none) :
+    (t ++ [((ns, cls), rid)]).remove ns cls = t := by
+  unfold RTable.remove
+  rw [List.filter_append]
+  have := RTable.remove_of_find_none t ns cls h
+  unfold RTable.remove at this
+  rw [this]
+  simp
+
+/-- **reversible**: a registration that succeeded is undone exactly by unregistering the same class in the same
+namespace — all three tables return to what they were, whatever the warnings filter and whatever happened to other
+classes and namespaces in between is covered by `C12_step_other_key` -/
+theorem C12_register_then_unregister (info : Nat → ClsInfo) (w w' : Bool) (s s' : RState) (rid rid' : Nat)
+    (cls : Nat) (ns : RNs) (bad : Bool) (hinv : s.Inv)
+    (h : rstep info w s rid (.reg cls ns bad) = (s', Option.none)) :
+    rstep info w' s' rid' (.unreg cls ns) = (s, Option.none) := by
+  obtain ⟨h1, h2⟩ := hinv
+  simp only [rstep] at h
+  split at h; · simp at h
+  rename_i hcls
+  split at h; · simp at h
+  split at h; · simp at h
+  rename_i hns
+  unfold engineRegister at h
+  split at h; · simp at h
+  rename_i hb
+  split at h; · simp at h
+  rename_i hfind
+  split at h; · simp at h
+  simp only [Prod.mk.injEq, and_true] at h
+  subst h
+  have hf : s.node.find ns.key cls = Option.none := by simpa using hfind
+  simp only [rstep, hcls, hns, hb, Bool.false_eq_true, if_false]
+  have hfound : ((s.node ++ [((ns.key, cls), rid)]).find ns.key cls).isNone = false := by
+    unfold RTable.find at hf ⊢
+    simp only [Option.map_eq_none_iff] at hf
+    simp [List.find?_append, hf]
+  simp only [hfound, Bool.false_eq_true, if_false]
+  have e1 := RTable.remove_append_self s.node ns.key cls rid hf
+  have e2 : (s.leaf ++ [((ns.key, cls), rid)]).remove ns.key cls = s.leaf := by
+    rw [← h1]; exact e1
+  have e3 : (s.mirror ++ [((ns.key, cls), rid)]).remove ns.key cls = s.mirror := by
+    rw [← h2]; exact e1
+  simp [e1, e2, e3]
+
+
 end Optree
